@@ -107,41 +107,42 @@ func (c *checker) writeEvidence() {
 	}
 	cellCount := len(cells)
 	cov := map[string]interface{}{
-		"evaluations":                         requests,
-		"distinct_nontrivial":                 len(opVariants),
-		"rule":                                "evaluations = request executions against the real service (both passes). A case is one operation of one simulated run (plan digest + operation id + response digest); it is non-trivial when its run exercised at least one simulator-controlled dimension (non-sorted map iteration order, injected fault, clock jump / global-rand reseed, interleaved schedule, transport fault, library-client aliasing); distinct = distinct such strings. Plans are generated from VERIF_SEED (swarm profile per run).",
-		"samples":                             samples,
-		"simulated_runs":                      g.runs,
-		"distinct_plans":                      len(planDigests),
-		"runs_per_hour":                       float64(g.runs+g.runsB) / wall * 3600,
-		"seeds":                               fmt.Sprintf("VERIF_SEED=%d, run i uses mix(seed,property,i), i in [0,%d)", c.seed, c.runsDone),
-		"simulated_steps":                     ticks,
-		"simulated_time_note":                 "the system has no timers; simulated time is reported as steps (ticks of the inserted scheduling points) and scheduler decisions",
-		"scheduler_switches":                  switches,
-		"distinct_schedules":                  len(schedules),
-		"map_order_decisions":                 mapDec,
-		"max_steps_one_request":               maxTicks,
-		"step_budget_per_request":             DefaultFuel,
-		"step_budget_note":                    "multiplied by min(100, (known alternatives / 14)^4) for requests with more than 14 alternatives: a liveness bound, kept far above what a terminating evaluation needs",
-		"fault_kinds_fired":                   faults,
-		"clock_and_global_rand_calls":         probes,
-		"response_classes":                    classes,
-		"reach_cells":                         cellCount,
-		"cross_process_plans_checked":         c.crossChecked,
-		"battery_after_history_comparisons":   c.batteryChecked,
-		"cross_process_mismatches":            c.crossMismatch,
-		"plans_rerun_each_in_a_fresh_process": c.freshChecked,
-		"node_deaths":                         c.deaths,
-		"minimiser_candidate_runs":            c.minimiseRuns,
-		"known_findings_hit":                  c.knownHits,
-		"unlisted_violation_classes":          len(c.newKeys),
-		"step_sites_hit":                      sitesHit,
-		"step_sites_total":                    sitesTotal,
-		"instrumentation":                     instr,
-		"worker_processes":                    g.workers,
-		"components_real":                     []string{"lib (all packages)", "httpClient/main.go registries, handlers, router wiring", "gin engine with Logger+Recovery, static, CORS middleware", "encoding/json", "mapstructure", "jsonschema reflector", "net/http server (transport scenarios)"},
-		"components_stubbed":                  []string{"TCP sockets -> in-memory net.Pipe listener", "(*gin.Engine).Run -> hands the engine to the simulator", "log / gin log output discarded", "time.Now / global math/rand -> simulated (no call sites on the pinned tree)", "map iteration order -> simulator-chosen permutation"},
-		"notes":                               c.traceNote,
+		"evaluations":                            requests,
+		"distinct_nontrivial":                    len(opVariants),
+		"rule":                                   "evaluations = request executions against the real service (both passes). A case is one operation of one simulated run (plan digest + operation id + response digest); it is non-trivial when its run exercised at least one simulator-controlled dimension (non-sorted map iteration order, injected fault, clock jump / global-rand reseed, interleaved schedule, transport fault, library-client aliasing); distinct = distinct such strings. Plans are generated from VERIF_SEED (swarm profile per run).",
+		"samples":                                samples,
+		"simulated_runs":                         g.runs,
+		"distinct_plans":                         len(planDigests),
+		"runs_per_hour":                          float64(g.runs+g.runsB) / wall * 3600,
+		"seeds":                                  fmt.Sprintf("VERIF_SEED=%d, run i uses mix(seed,property,i), i in [0,%d)", c.seed, c.runsDone),
+		"simulated_steps":                        ticks,
+		"simulated_time_note":                    "the system has no timers; simulated time is reported as steps (ticks of the inserted scheduling points) and scheduler decisions",
+		"scheduler_switches":                     switches,
+		"distinct_schedules":                     len(schedules),
+		"map_order_decisions":                    mapDec,
+		"max_steps_one_request":                  maxTicks,
+		"step_budget_per_request":                DefaultFuel,
+		"step_budget_note":                       "multiplied by min(100, (known alternatives / 14)^4) for requests with more than 14 alternatives: a liveness bound, kept far above what a terminating evaluation needs",
+		"fault_kinds_fired":                      faults,
+		"clock_and_global_rand_calls":            probes,
+		"response_classes":                       classes,
+		"reach_cells":                            cellCount,
+		"cross_process_plans_checked":            c.crossChecked,
+		"battery_after_history_comparisons":      c.batteryChecked,
+		"plans_compared_with_an_unobserved_node": c.unobservedChecked,
+		"cross_process_mismatches":               c.crossMismatch,
+		"plans_rerun_each_in_a_fresh_process":    c.freshChecked,
+		"node_deaths":                            c.deaths,
+		"minimiser_candidate_runs":               c.minimiseRuns,
+		"known_findings_hit":                     c.knownHits,
+		"unlisted_violation_classes":             len(c.newKeys),
+		"step_sites_hit":                         sitesHit,
+		"step_sites_total":                       sitesTotal,
+		"instrumentation":                        instr,
+		"worker_processes":                       g.workers,
+		"components_real":                        []string{"lib (all packages)", "httpClient/main.go registries, handlers, router wiring", "gin engine with Logger+Recovery, static, CORS middleware", "encoding/json", "mapstructure", "jsonschema reflector", "net/http server (transport scenarios)"},
+		"components_stubbed":                     []string{"TCP sockets -> in-memory net.Pipe listener", "(*gin.Engine).Run -> hands the engine to the simulator", "log / gin log output discarded", "time.Now / global math/rand -> simulated (no call sites on the pinned tree)", "map iteration order -> simulator-chosen permutation"},
+		"notes":                                  c.traceNote,
 	}
 	if len(cells) <= 400 {
 		cov["reach_cell_counts"] = cells
